@@ -230,31 +230,32 @@ func c11gExemptionLists(c *eng.Ctx) {
 			continue
 		}
 		for _, au := range append(c11BrokerCalls(f, "LogRequest"), c11BrokerCalls(f, "LogResponse")...) {
-			lr, in := au.call, au.in
-			if in == nil {
-				continue // forwarding closure whose argument could not be traced: reported by C11.1/C11.2
-			}
+			lr := au.call
 			for li, cf := range want {
-				for _, v := range eng.StructLitField(in, li) {
-					n++
-					site := "LogInput." + li + " read from the mount's " + cf
-					var bad []string
-					leaves := map[ssa.Value]bool{}
-					c11PhiLeaves(v, leaves)
-					for l := range leaves {
-						if eng.IsNilConst(l) {
-							continue
-						}
-						if why := c11gCacheLoad(l, keyOf[cf]); why != "" {
-							bad = append(bad, why)
-						}
+				vals, literal, traced := c11AuditVals(f, au, li)
+				if !literal && len(vals) == 0 && traced {
+					continue // the list is not set in this input (request audits carry no response list)
+				}
+				n++
+				site := "LogInput." + li + " read from the mount's " + cf
+				if !traced {
+					c.Undecided(f, site, lr.Pos(), "the list put into the LogInput inside a closure / helper could not be traced back to this function's values; the rule cannot be evaluated")
+					continue
+				}
+				var bad []string
+				for _, l := range vals {
+					if eng.IsNilConst(l) {
+						continue
 					}
-					sort.Strings(bad)
-					if len(bad) > 0 {
-						c.Violation(f, site, lr.Pos(), "the exemption list put into the audit input is not the matched mount's cached "+cf+" (key "+keyOf[cf]+"): "+strings.Join(bad, "; "), nil)
-					} else {
-						c.OK(f, site, lr.Pos(), "nil or Load("+keyOf[cf]+") on the mount entry matched for the request path")
+					if why := c11gCacheLoad(l, keyOf[cf]); why != "" {
+						bad = append(bad, why)
 					}
+				}
+				sort.Strings(bad)
+				if len(bad) > 0 {
+					c.Violation(f, site, lr.Pos(), "the exemption list put into the audit input is not the matched mount's cached "+cf+" (key "+keyOf[cf]+"): "+strings.Join(bad, "; "), nil)
+				} else {
+					c.OK(f, site, lr.Pos(), "nil or Load("+keyOf[cf]+") on the mount entry matched for the request path")
 				}
 			}
 		}
@@ -599,65 +600,91 @@ func c11gCachePublishedAfterConfigChange(c *eng.Ctx) {
 // ===================== shape-independent helpers (ROBUST.md) =====================
 
 // c11Audit is one place where fn hands an entry to the audit broker: the call
-// instruction in fn and the LogInput it passes. The call is either the direct
-// method call or a call of a local closure that does nothing but forward its
-// arguments to the broker method and return its error.
+// instruction in fn after which the broker call has certainly happened and whose
+// error result is the broker's verdict — the broker method itself (called directly
+// or through a bound method value), or a closure of fn / a function of the same
+// package that performs it on every path and reports success only across its
+// success (props/c04follow.go: nfSites / nfForwards). effs are the broker calls
+// behind the site, each with the call chain that leads to it.
 type c11Audit struct {
 	call ssa.CallInstruction
-	in   ssa.Value
+	in   ssa.Value // the LogInput handed over, when the broker call stands in fn itself
+	effs []nfEff
 }
 
 func c11BrokerCalls(fn *ssa.Function, method string) []c11Audit {
-	const recv = "vault.(*AuditBroker)."
 	var out []c11Audit
-	for _, b := range fn.Blocks {
-		for _, ins := range b.Instrs {
-			cl, ok := ins.(*ssa.Call)
-			if !ok {
-				continue
-			}
-			if eng.CalleeName(&cl.Call) == recv+method && len(cl.Call.Args) > 2 {
-				out = append(out, c11Audit{cl, cl.Call.Args[2]})
-				continue
-			}
-			mc, ok := cl.Call.Value.(*ssa.MakeClosure)
-			if !ok {
-				continue
-			}
-			g, ok := mc.Fn.(*ssa.Function)
-			if !ok {
-				continue
-			}
-			// forwarder: exactly one broker call, and every return hands on its result
-			inner := eng.Calls(g, `^vault\.\(\*AuditBroker\)\.`+method+`$`)
-			if len(inner) != 1 {
-				continue
-			}
-			ic, ok := inner[0].(*ssa.Call)
-			if !ok {
-				continue
-			}
-			fwd := true
-			for _, r := range eng.Returns(g) {
-				if len(r.Results) != 1 || r.Results[0] != ssa.Value(ic) {
-					fwd = false
-				}
-			}
-			if !fwd || len(ic.Call.Args) < 3 {
-				continue
-			}
-			var in ssa.Value
-			if p, ok := ic.Call.Args[2].(*ssa.Parameter); ok {
-				for k, gp := range g.Params {
-					if gp == p && k < len(cl.Call.Args) {
-						in = cl.Call.Args[k]
-					}
-				}
-			}
-			out = append(out, c11Audit{cl, in})
+	for _, s := range nfPlain(nfSites(fn, `^vault\.\(\*AuditBroker\)\.`+method+`$`)) {
+		if !s.Fwd {
+			continue // the call's result is not the broker's verdict: useless as a guard
 		}
+		au := c11Audit{call: s.At.(ssa.CallInstruction), effs: s.Effs}
+		if len(s.Effs) == 1 && s.Effs[0].Fn == fn && len(s.Effs[0].Call.Args) > 2 {
+			au.in = s.Effs[0].Call.Args[2]
+		}
+		out = append(out, au)
 	}
 	return out
+}
+
+// c11AuditVals: the values the audit puts into field `field` of the LogInput(s) it hands to the
+// broker, expressed in terms of fn: phis and local cells are read through, a parameter of the
+// closure / helper the broker call stands in is replaced by the argument passed for it.
+// literal=false: some LogInput is not a literal that sets the field; traced=false: some value
+// could not be carried back into fn.
+func c11AuditVals(fn *ssa.Function, au c11Audit, field string) (vals []ssa.Value, literal, traced bool) {
+	literal, traced = true, true
+	seen := map[ssa.Value]bool{}
+	var back func(v ssa.Value, fr *nfFrame, depth int)
+	back = func(v ssa.Value, fr *nfFrame, depth int) {
+		leaves := map[ssa.Value]bool{}
+		c11CellLeaves(v, leaves)
+		for l := range leaves {
+			if p, ok := l.(*ssa.Parameter); ok && p.Parent() != fn {
+				if fr != nil && depth < 4 {
+					if arg := nfArgFor(fr.call, p); arg != nil {
+						back(arg, fr.up, depth+1)
+						continue
+					}
+				}
+				traced = false
+				continue
+			}
+			if in, ok := l.(ssa.Instruction); ok && in.Parent() != fn {
+				// a value computed inside the helper (or read from a captured variable)
+				if ld, ok := l.(*ssa.UnOp); ok && ld.Op == token.MUL {
+					if cell := nfCellOf(ld.X); cell != nil && cell.Parent() == fn {
+						for _, sv := range nfStoresTo(cell) {
+							back(sv, nil, depth+1)
+						}
+						continue
+					}
+				}
+				if _, isConst := l.(*ssa.Const); !isConst {
+					traced = false
+					continue
+				}
+			}
+			if !seen[l] {
+				seen[l] = true
+				vals = append(vals, l)
+			}
+		}
+	}
+	for _, e := range au.effs {
+		if len(e.Call.Args) < 3 {
+			literal = false
+			continue
+		}
+		fs := eng.StructLitField(e.Call.Args[2], field)
+		if len(fs) == 0 {
+			literal = false
+		}
+		for _, v := range fs {
+			back(v, e.Fr, 0)
+		}
+	}
+	return vals, literal, traced
 }
 
 // c11AuditGuard: "the broker call executed and returned nil" over the given audits.
